@@ -269,7 +269,7 @@ PROPS = {
     "C09": {
         "suites": ["purego-race:argonsched", "argon"],
         "level": "proof",
-        "fail_kinds": ["data-race", "schedule-dependent", "goroutine-leak", "reference-set"],
+        "fail_kinds": ["data-race", "schedule-dependent", "goroutine-leak", "reference-set", "differs-from-sequential"],
         "technique": "Lean 4 proof (reference-set theorem about the index kernel regenerated from source; schedule independence of tasks with disjoint write regions, for every schedule) + race-detector exploration of the portable build under perturbed scheduling",
         "claim": "Kernel-checked: for tasks that write only their own region and read only it and a frozen area, EVERY schedule leaves each region exactly as the task's solo run (so the result is schedule-independent); the reference-set theorem for the regenerated indexAlpha gives the locality premise (a cross-lane reference never points into the slice being written; a same-lane reference is strictly earlier). "
                  "Go side: lanes 2..8 × 3 variants × 2 versions × memory {8p, 8p+3, 32p} × time 1..3 × GOMAXPROCS {1,2,3,16} with competing goroutines, on the purego build under the race detector; keys equal the sequential Lean model; goroutine count restored.",
